@@ -23,6 +23,12 @@ between a tight one (1 permit per hour) and a loose one (never limits), both def
 defaultPolicyRef, by the rule's policyRef or by the content of the policy (one realisation per schedule); a loose generation must
 not limit, a tight one must not let more pass than its limit (bare RateLimiter and one-filter pipeline harnesses).
 Judged only on generations that are not closed; baselines on a first generation guard the reading.
+Options of the Proxy (mbt-opts): the Proxy's spec has separately versioned options (Options: server url, mTLS root CA, mTLS client
+certificate, pool timeout, failure codes, maxIdleConns); an update of kind o changes exactly that one field of the spec ("allopts": all,
+"resil": none).  Class "o" requests are replayed on real one-Proxy pipelines that talk mTLS to an HTTPS backend with generated CAs: the
+backend echoes the path and the client certificate, presents a certificate of the configured / of another CA, holds the answer, answers
+the status it is asked for - the call must be made under the options of the generation the request holds (Configured; knob StaleOpts:
+Inherit carries over what an option configures when no other option changed).
 GlobalFilter (mbt-gf): schedules of HotUpdateGF (each update keeps / changes / drops / adds the before and the after section;
 requests stop at marker filters in the before, main and after pipelines) replayed on real GlobalFilter objects (Inherit); a
 request must pass exactly the pipelines the spec of the generation it holds defines.
@@ -88,6 +94,8 @@ OPTIONS = '{"url","ca","cert","timeout","fcodes","idle"}'     # "idle" (maxIdleC
 OPT_KINDS = '{"resil","allopts","url","ca","cert","timeout","fcodes","idle"}'
 OPT_SLICE = dict(kinds="KindsPx", ops=2, srv=0, pip=2, other=0, same=0, maxreq=1, targets='{"pa"}', ips='{"n"}', srvkinds='{"both"}',
                  pipkinds=OPT_KINDS, classes='{"o"}', options=OPTIONS)
+# (the model treats all options alike: the quick tier checks two of them, one that shows and one that does not)
+OPT_SLICE_Q = dict(OPT_SLICE, pipkinds='{"resil","allopts","ca","idle"}', options='{"ca","idle"}')
 
 TRACE_CFG = ("SPECIFICATION TSpec\nCONSTANTS\n  Reqs = {\"w0\",\"w1\",\"w2\",\"w3\",\"w4\",\"w5\",\"w6\",\"w7\"}\n  Routed <- RoutedDef\n"
              "  Others = {\"q\"}\n  Kinds <- KindsFull\n  InhRl = \"share\"\n  ClsRl = \"none\"\n  InhPx = \"fresh\"\n  ClsPx = \"stop\"\n"
@@ -105,7 +113,8 @@ def run(ctx):
                        "(per harness: httpserver+trafficcontroller+pipeline+filters, trafficcontroller, one-filter pipelines of every kind, bare "
                        "RateLimiter/Proxy); pipeline updates change the filters, the resilience section or both, and requests of class x "
                        "(beyond the limit every generation configures) / f (failing backend call, retried as the held generation's retry "
-                       "policy says) / d (a URL under the RateLimiter's default policy, which updates switch) show which configuration handled them; "
+                       "policy says) / d (a URL under the RateLimiter's default policy, which updates switch) / o (a Proxy call to an mTLS backend that shows server url, "
+                       "root CA, client certificate, timeout and failure codes in force, while updates change exactly one of these options) show which configuration handled them; "
                        "GlobalFilter generations (HotUpdateGF: before/after sections kept, changed, dropped, added) replayed on real GlobalFilter objects; traces = stress runs of the real mux/TrafficController validated by TLC; non-trivial = distinct schedules "
                        "in which a request step happens between the first and the last step of an update, or a request holds a superseded generation")
     ctx.assumptions += [
@@ -213,7 +222,7 @@ def _mc(ctx, modes):
     r4 = ctx.tlc_mc(M, cfg(CONTRACT_MODES, mc=True, **(DFLT_SLICE if ctx.quick else dict(DFLT_SLICE, ops=3, pip=3, maxreq=2))),
                     label="contract, default-policy slice: 2 requests (classes n/d) x pipeline updates that switch / keep the default policy of the limiter",
                     timeout=600 if ctx.quick else 1500)
-    r5 = ctx.tlc_mc(M, cfg(CONTRACT_MODES, mc=True, **(OPT_SLICE if ctx.quick else dict(OPT_SLICE, ops=3, pip=3, targets='{"pa","pb"}'))),
+    r5 = ctx.tlc_mc(M, cfg(CONTRACT_MODES, mc=True, **(OPT_SLICE_Q if ctx.quick else dict(OPT_SLICE, maxreq=2))),
                     label="contract, options slice: 2 requests (class o) x pipeline updates that change one option of the Proxy / all / none of them",
                     timeout=600 if ctx.quick else 1500)
     ctx.log("contract model checked: %d + %d + %d + %d + %d distinct states, depth %d / %d / %d / %d / %d" % (
@@ -230,7 +239,7 @@ def _mc(ctx, modes):
                            ("knob: Inherit keeps the limiter of a URL rule although the default policy the rule falls under was switched",
                             cfg(CONTRACT_MODES, mc=True, stale=True, **DFLT_SLICE), "Configured"),
                            ("knob: Inherit takes over what one option of the filter configures (the comparison 'nothing relevant changed' forgets that option)",
-                            cfg(CONTRACT_MODES, mc=True, staleopts='{"ca"}', **OPT_SLICE), "Configured")):
+                            cfg(CONTRACT_MODES, mc=True, staleopts='{"ca"}', **OPT_SLICE_Q), "Configured")):
         k = ctx.tlc_mc(M, c, expect_ok=False, count=False, label=label, timeout=300)
         if k.ok or k.violated != want:
             ctx.inconclusive("HotUpdate: %s should violate %s but TLC says ok=%s violated=%s" % (label, want, k.ok, k.violated))
@@ -517,7 +526,7 @@ def _opt_cover(behs):
 def _mbt_opts(ctx, modes):
     """schedules of the options slice replayed on real one-Proxy pipelines that talk mTLS to an HTTPS backend: each class "o"
     request shows the options (server url, root CA, client certificate, timeout, failure codes) its backend call was made under"""
-    n = 100 if ctx.quick else 1000
+    n = 100 if ctx.quick else 800
     c = cfg(modes, kinds="KindsPx", ops=5, srv=0, pip=5, other=0, same=0, maxreq=3, targets='{"pa"}', atomic="coarse", props=False, view=False,
             blocking="{}", pipkinds=OPT_KINDS, classes='{"o"}', options=OPTIONS)
     behs, p = _behaviours(ctx, c, n, 40, "opts")
